@@ -1200,7 +1200,7 @@ def drop_capacity_hints(f, ctors=("Vec",)):
     while changed:
         changed = False
         for nm in sorted(names):
-            uses = [m.start() for m in re.finditer(r'(?<![.\w])' + re.escape(nm) + r'\b', f.body)]
+            uses = [m.start() for m in re.finditer(r'(?<!\w)(?<!(?<!\.)\.)' + re.escape(nm) + r'\b', f.body)]   # `a..nm` is a use, `x.nm` is a field
             if len(uses) != 1:
                 continue
             m = re.search(r'let\s+(?:mut\s+)?' + re.escape(nm) + r'\b\s*(?::[^=;]+)?=', f.body)
